@@ -338,6 +338,9 @@ struct IoFut {
     then: u8,
     awaited: bool,
     stalled: u32,
+    /// kind 6: a wait in the other direction was started and abandoned
+    tried_other: bool,
+    proxy: Option<std::task::Waker>,
     _g: DropCtr,
 }
 
@@ -395,7 +398,16 @@ impl Future for IoFut {
     fn poll(mut self: Pin<&mut Self>, cx0: &mut Context<'_>) -> Poll<u64> {
         let sim = cur();
         let this = &mut *self;
-        let proxy = std::task::Waker::from(std::sync::Arc::new(WakeProxy { task: this.task, inner: cx0.waker().clone() }));
+        // one proxy per task (as long as the task's own waker stays the same), so that the
+        // adapter sees the same waker across polls, as it would without the proxy
+        let proxy = match &this.proxy {
+            Some(p) => p.clone(),
+            None => {
+                let p = std::task::Waker::from(std::sync::Arc::new(WakeProxy { task: this.task, inner: cx0.waker().clone() }));
+                this.proxy = Some(p.clone());
+                p
+            }
+        };
         let cx = &mut Context::from_waker(&proxy);
         // generic task bookkeeping (runnable / polls / on-loop-thread checks)
         if !crate::exec::note_poll(&sim, this.task) {
@@ -414,6 +426,13 @@ impl Future for IoFut {
             let Some(ad) = this.adapter.as_mut() else { return Poll::Pending };
             let want = (this.chunk as u64).min(this.total - this.moved).max(1) as usize;
             let reading = matches!(this.kind, 0 | 2 | 4);
+            // kind 6: start waiting for readability, abandon that wait without it firing (the
+            // other branch of a select won), then write - the interest must follow
+            if this.kind == 6 && !this.tried_other {
+                this.tried_other = true;
+                let mut f = ad.readable();
+                let _ = Pin::new(&mut f).poll(cx);
+            }
             // readable()/writable() first, for the kinds that use them
             if matches!(this.kind, 2 | 3) && !this.awaited {
                 let ready = if this.kind == 2 {
@@ -588,14 +607,14 @@ pub fn adapter_task(sim: &Sim, exec: Id, task: Id, aid: Id, kind: u8, total: u32
         }
         // direction must make sense for the fd
         let reading = matches!(kind, 0 | 2 | 4);
-        if (reading && m.fdkind == FdKind::PipeW) || (!reading && m.fdkind == FdKind::PipeR) {
+        if (reading && m.fdkind == FdKind::PipeW) || (!reading && m.fdkind == FdKind::PipeR) || (kind == 6 && m.fdkind != FdKind::Sock) {
             return;
         }
         m.state = AdState::InTask(task);
         m.adapter.take()
     };
     let ctr = Rc::new(Cell::new(0));
-    let fut = IoFut { task, aid, adapter, kind, total: total as u64, chunk: chunk as usize, moved: 0, then, awaited: false, stalled: 0, _g: DropCtr(ctr.clone()) };
+    let fut = IoFut { task, aid, adapter, kind, total: total as u64, chunk: chunk as usize, moved: 0, then, awaited: false, stalled: 0, tried_other: false, proxy: None, _g: DropCtr(ctr.clone()) };
     crate::exec::register_task(sim, exec, task, ctr);
     sim.st.borrow_mut().io_tasks.insert(task, IoTaskM { adapter: aid, kind, waiting: false, woken: false, starved: 0, ready_at_wait: false, polls_at_wait: 0 });
     let Some(r) = guarded(sim, "schedule", || sched.schedule(fut)) else { return };
